@@ -222,11 +222,11 @@ def gen_case(rng, is_async):
         frags = []
         for _ in range(nf):
             c = rng.random()
-            if ipool and c < 0.3:
+            if ipool and c < 0.36:
                 frags.append(rng.choice(ipool))
-            elif c > 0.85:
+            elif c > 0.86:
                 frags.append(rng.choice(MOD_FRAGS))
-            elif c > 0.6:
+            elif c > 0.62:
                 lab, src, _ = rng.choice(spool)
                 if rng.random() < 0.5:
                     # the sentinel right behind the guarded macros, in the same template
